@@ -851,7 +851,17 @@ def arc_sense(repo: Repo) -> RuleRun:
         if name in ("np.flip", "numpy.flip", "np.flipud", "numpy.flipud") and call.args:
             v = ev.eval(call.args[0])
             if isinstance(v, list):
-                return list(reversed(v))
+                axis = None
+                for kw in call.keywords:
+                    if kw.arg == "axis":
+                        axis = ev.eval(kw.value)
+                if axis is None and len(call.args) > 1:
+                    axis = ev.eval(call.args[1])
+                if name.endswith("flipud") or axis == 0:
+                    return list(reversed(v))
+                if axis is None:
+                    # numpy: 'The default, axis=None, will flip over all of the axes' - the order of the points AND of the coordinates of each
+                    return [Sym(f"coordinates-reversed:{x!r}") for x in reversed(v)]
         return NO_MATCH
 
     def spline_order(edge, kind):
@@ -866,6 +876,8 @@ def arc_sense(repo: Repo) -> RuleRun:
             return 1, ""
         if names == list(reversed(base)):
             return -1, ""
+        if any("coordinates-reversed" in nm for nm in names):
+            return 0, "the point array is flipped over ALL its axes (np.flip without axis=0): the points are listed backwards and every point (x, y, z) becomes (z, y, x)"
         return None, f"the spline's points become {names}"
 
     def axis_sign(edge, kind):
@@ -878,6 +890,8 @@ def arc_sense(repo: Repo) -> RuleRun:
                 sign *= int(args[0])
             else:
                 return None, f"the axis is additionally subjected to {what}({', '.join(map(repr, args))[:60]})"
+        if applied == 0:
+            return 0, f"the axis of the arc is not {kind.rstrip('e')}ed at all"
         if applied != 1:
             return None, f"the axis is {kind}d {applied} times"
         ang = edge.get("angle")
@@ -952,6 +966,9 @@ def _judge_order(r, m, label, kind, direction, order, why):
     key = label.split(":")[0].strip() + ":" + label.split(":")[1].strip().replace(" ", "-")
     if order is None:
         raise AnalysisError(f"{label}: {why}")
+    if order == 0:
+        r.bad(m, f"{label}: after {kind}() {why}: the spline / polyLine of the transformed entity runs through points that are not the images of the original ones", m.node, key=key)
+        return
     r.require(direction != 0, f"{label}: the edge does not connect its two original end points afterwards")
     r.check(
         order * direction == 1,
@@ -968,6 +985,15 @@ def _judge_sense(r, m, label, kind, det, direction, sign, why):
     key = label.split(":")[0].strip() + ":" + label.split(":")[1].strip().replace(" ", "-")
     if sign is None:
         raise AnalysisError(f"{label}: {why}")
+    if sign == 0:
+        r.bad(
+            m,
+            f"{label}: after {kind}() {why} (only its angle / nothing changes): the axis of an angle-and-axis arc is a direction of the entity and must be mapped with it - negating the angle equals reflecting "
+            "the axis only when the mirror plane contains it; for any other plane the arc is written about a wrong axis, through a point off its circle",
+            m.node,
+            key=key,
+        )
+        return
     r.require(direction != 0, f"{label}: the edge does not connect its two original end points afterwards")
     got = sign * direction
     r.check(
